@@ -6,7 +6,9 @@ import (
 	"path/filepath"
 	"regexp"
 	"strings"
+	"syscall"
 	"testing"
+	"time"
 
 	"github.com/jsightapi/jsight-api-go-library/core"
 
@@ -145,6 +147,36 @@ func c08NameCheck(c c08Name, info *vlib.Info) *vlib.Failure {
 		}
 		return nil
 	}
+	// rejected: a file outside the project directory must not even have been
+	// opened. The canary the name points at becomes a FIFO: opening it for
+	// reading blocks until the check opens the other end.
+	if target := filepath.Join(proj, c.Name); c.Target == "file" && !inside && !strings.HasPrefix(c.Name, "/") &&
+		strings.HasPrefix(target, base+string(filepath.Separator)) && !strings.HasPrefix(target, proj+string(filepath.Separator)) && target != proj {
+		if st, err := os.Stat(target); err == nil && st.Mode().IsRegular() {
+			_ = os.Remove(target)
+			if syscall.Mkfifo(target, 0o644) == nil {
+				info.Class("outside-target-is-fifo")
+				done := make(chan struct{})
+				go func() {
+					defer close(done)
+					vlib.RunIn(vlib.Project{Root: "root.jst", Files: map[string]string{"root.jst": root}}, proj)
+				}()
+				select {
+				case <-done:
+				case <-time.After(3 * time.Second):
+					// unblock the reader, then report
+					if w, err := os.OpenFile(target, os.O_WRONLY|syscall.O_NONBLOCK, 0); err == nil {
+						w.Close()
+					}
+					select {
+					case <-done:
+					case <-time.After(5 * time.Second):
+					}
+					return vlib.Failf("outside-file-opened", "INCLUDE %s: the file %s outside the project directory was opened for reading (the name is then rejected)", param, strings.TrimPrefix(target, base))
+				}
+			}
+		}
+	}
 	// rejected: must be a diagnostic at the INCLUDE line of the root file
 	if res.Err == nil {
 		return vlib.Failf("no-diagnostic", "INCLUDE %s: neither accepted nor a JApiError", param)
@@ -204,9 +236,9 @@ func eachIncludeName(maxLen int, mine func(int) bool, yield func(c08Name) bool) 
 func TestC08(t *testing.T) {
 	h := vlib.New(t, "C08", "exploration",
 		"INCLUDE file names: every string up to the tier's length over {. / \\ a} (plus one position substituted by b, space or a quote; bare and quoted; target present, absent, directory, empty, dangling symlink) run end to end in a private tree with canary files outside the project directory, and every such string up to a larger bound against the name validator directly; generated documents cut into files in all the ways the property lists, compared with the unsplit document; negative include graphs; non-trivial = name holds a '.', or the split has an include at depth >= 2 or >= 2 includes; distinct by name / project hash",
-		"reading outside the project directory is observed through canary files (a read that is followed by a rejection is only visible to the strace arm)", "checks run as root: an unreadable target cannot be produced")
+		"reading outside the project directory is observed through canary files, and an open that is followed by a rejection through a FIFO in the canary's place (quick and thorough) and through strace (thorough)", "checks run as root: an unreadable target cannot be produced")
 	defer vlib.CleanupScratch()
-	h.Require("absolute-name-with-rerooted-target", "name:bad", "name:harmless", "target:file", "target:absent", "target:dir", "target:empty", "target:dangling")
+	h.Require("outside-target-is-fifo", "absolute-name-with-rerooted-target", "name:bad", "name:harmless", "target:file", "target:absent", "target:dir", "target:empty", "target:dangling")
 
 	vlib.Enum(h, "names-end-to-end-exhaustive", true, func(yield func(c08Name) bool) {
 		eachIncludeName(h.Pick(5, 7), h.Mine, yield)
